@@ -162,8 +162,9 @@ class Binding:
     that the oracle output, once parsed by `parse`, must equal; panic: z3 Bool = encoding's
     'this call panics (dev profile)' condition."""
 
-    def __init__(self, name, args, outs, parse=None, panic=False, domain=None, interesting=None, line_fn=None, which='oracle'):
+    def __init__(self, name, args, outs, parse=None, panic=False, domain=None, interesting=None, line_fn=None, which='oracle', via_solver=False):
         self.name, self.args, self.outs, self.panic = name, args, outs, panic
+        self.via_solver = via_solver      # translator validation evaluates the encoding through the solver (outputs depend on symbols that are not arguments)
         self.which = which
         self.line_fn = line_fn
         self.parse = parse or (lambda toks: [int(t) for t in toks])
@@ -582,7 +583,7 @@ class Session:
         outs = (self.oracle() if b.which == 'oracle' else self.oracle_tu()).call(lines)
         bad = 0
         sample = None
-        compound = any(not (isinstance(a, (int, bool)) or (z3.is_const(a) and a.decl().kind() == z3.Z3_OP_UNINTERPRETED)) for a in b.args)
+        compound = b.via_solver or any(not (isinstance(a, (int, bool)) or (z3.is_const(a) and a.decl().kind() == z3.Z3_OP_UNINTERPRETED)) for a in b.args)
         vsolver = None
         if compound:
             # arguments are terms over the encoding's symbols (e.g. If(is_some, 1, 0)): evaluate the encoding
